@@ -302,12 +302,25 @@ def peerVertical (keys : List String) : Except RdErr (Nat × Bool) :=
       | some i => .ok (i, false)
       | none => .error .value
 
+/-- value of a decimal digit -/
+def digitVal (c : Char) : Option Nat :=
+  if '0' ≤ c ∧ c ≤ '9' then some (c.toNat - '0'.toNat) else none
+
+/-- `int(s)` for the strings the direction expression can deliver: a non-empty run of decimal digits (leading zeros allowed,
+`"090"` is 90); anything else (`"UP"`, `"HNE"`) is Python's `ValueError` -/
+def parseNat (s : String) : Option Nat :=
+  match s.toList with
+  | [] => none
+  | cs => cs.foldl (fun acc c => match acc, digitVal c with
+      | some a, some d => some (10 * a + d)
+      | _, _ => none) (some 0)
+
 /-- `np.array(component_keys, dtype=int)` -/
 def keysToInt : List String → Except RdErr (List Int)
   | [] => .ok []
   | k :: rest =>
-    match k.toInt?, keysToInt rest with
-    | some i, .ok is => .ok (i :: is)
+    match parseNat k, keysToInt rest with
+    | some i, .ok is => .ok ((i : Int) :: is)
     | _, _ => .error .value
 
 /-- `component_keys_rel[component_keys_abs > 180] -= 360` -/
@@ -423,7 +436,7 @@ def Arg.get? {α : Type} : Arg α → Nat → Option α
 inductive FArg (φ : Type)
   | one (f : φ)
   | many (l : List φ)
-  deriving Repr
+  deriving Repr, DecidableEq
 
 /-- "if entry is a list with only a single entry, remove the list" -/
 def unwrapSingle : FArg φ → FArg φ
